@@ -3,8 +3,8 @@ import UmProofs.BrokerScaleRelease
 /-!
 # C10 — `CommitInv` is preserved by a commit; chains of commits terminate (part D)
 -/
-namespace Um.Broker
-open Um Um.Slots
+namespace Um.Broker.Scale
+open Um Um.Slots Um.Broker
 
 theorem commitInv_of_idle {c : Cluster} (h : c.migs = []) : CommitInv c := by
   have hch : ∀ ch ∈ c.chunks, ch.mig0 = [] ∧ ch.mig1 = [] := by
@@ -19,7 +19,7 @@ theorem commitInv_of_idle {c : Cluster} (h : c.migs = []) : CommitInv c := by
   · unfold TwinInv; rw [h]; simp
   · rw [h]; intro m hm; cases hm
 
-theorem Cluster.pending_nil_iff {c : Cluster} (h : TwinInv c) : c.pending = [] ↔ c.migs = [] := by
+theorem Cluster.pending_nil_iff {c : Cluster} (h : TwinInv c) : (Cluster.pending c) = [] ↔ c.migs = [] := by
   constructor
   · intro hp
     have hlen := (h.1).length_eq
@@ -54,7 +54,7 @@ theorem commitRes_inv {c : Cluster} (hinv : CommitInv c) {m : MigStore} (hm : m 
     (htm : t.isMigrating = false) (htr : t.ranges = m.ranges) (htmm : t.mm = m.mm)
     (hpart : (m.mm.dstPart = 0 ∧ t ∈ dch.mig0) ∨ (m.mm.dstPart = 1 ∧ t ∈ dch.mig1)) (e : Nat) :
     CommitInv { c with chunks := commitRes m.ranges m.mm A dch B, epoch := e } ∧
-    c.pending.Perm (m :: Cluster.pending { c with chunks := commitRes m.ranges m.mm A dch B, epoch := e }) := by
+    (Cluster.pending c).Perm (m :: Cluster.pending { c with chunks := commitRes m.ranges m.mm A dch B, epoch := e }) := by
   have htwin : isTwin m.ranges m.mm t = true := isTwin_iff.mpr ⟨htm, htmm, htr⟩
   have hkeep : keepOf m.ranges m.mm t = true := keepOf_of_importing htm
   have htw : (m.mm.dstPart = 0 ∧ (strip m.ranges m.mm dch).mig0.any (isTwin m.ranges m.mm) = true) ∨
@@ -68,19 +68,19 @@ theorem commitRes_inv {c : Cluster} (hinv : CommitInv c) {m : MigStore} (hm : m 
   have hmigs' : c'.migs = (commitRes m.ranges m.mm A dch B).flatMap Chunk.migs := by subst hc'; rfl
   rw [← hmigs'] at hperm
   -- pending
-  have hpend : (c.pending.filter (keepOf m.ranges m.mm)).Perm c'.pending := by
+  have hpend : ((Cluster.pending c).filter (keepOf m.ranges m.mm)).Perm (Cluster.pending c') := by
     have h1 := hperm.filter (·.isMigrating)
-    have h2 : (a :: c'.migs).filter (·.isMigrating) = c'.pending := by
+    have h2 : (a :: c'.migs).filter (·.isMigrating) = (Cluster.pending c') := by
       simp [Cluster.pending, ha1]
     rw [h2] at h1
     have h3 : (c.migs.filter (keepOf m.ranges m.mm)).filter (·.isMigrating) =
-        c.pending.filter (keepOf m.ranges m.mm) := by
+        (Cluster.pending c).filter (keepOf m.ranges m.mm) := by
       simp only [Cluster.pending, List.filter_filter]
       apply List.filter_congr; intro x _; exact Bool.and_comm _ _
     rw [h3] at h1; exact h1
-  have hmp : m ∈ c.pending := List.mem_filter.mpr ⟨hm, hmig⟩
-  have hpnd : c.pending.Nodup := nodup_of_nodup_map hinv.twin.2
-  have hfilt : c.pending.filter (keepOf m.ranges m.mm) = c.pending.filter (fun y => !(y == m)) := by
+  have hmp : m ∈ (Cluster.pending c) := List.mem_filter.mpr ⟨hm, hmig⟩
+  have hpnd : (Cluster.pending c).Nodup := nodup_of_nodup_map hinv.twin.2
+  have hfilt : (Cluster.pending c).filter (keepOf m.ranges m.mm) = (Cluster.pending c).filter (fun y => !(y == m)) := by
     apply List.filter_congr
     intro y hy
     obtain ⟨hy1, hy2⟩ := List.mem_filter.mp hy
@@ -92,17 +92,17 @@ theorem commitRes_inv {c : Cluster} (hinv : CommitInv c) {m : MigStore} (hm : m 
         | false =>
           exfalso
           obtain ⟨_, k2, k3⟩ := keepOf_eq_false_iff.mp hk
-          exact hym (hinv.twin.pending_unique hm hmig hy1 hy2 k2 (by rw [k3]))
+          exact hym (TwinInv.pending_unique hinv.twin hm hmig hy1 hy2 k2 (by rw [k3]))
       simp [this, hym]
-  have hP : c.pending.Perm (m :: c'.pending) :=
+  have hP : (Cluster.pending c).Perm (m :: (Cluster.pending c')) :=
     (perm_cons_filter_ne hpnd hmp).trans (List.Perm.cons m (hfilt ▸ hpend))
   -- importing
-  have himp : c.importing.Perm (a :: c'.importing) := by
+  have himp : (Cluster.importing c).Perm (a :: (Cluster.importing c')) := by
     have h1 := hperm.filter (fun x => !x.isMigrating)
-    have h2 : (a :: c'.migs).filter (fun x => !x.isMigrating) = a :: c'.importing := by
+    have h2 : (a :: c'.migs).filter (fun x => !x.isMigrating) = a :: (Cluster.importing c') := by
       simp [Cluster.importing, ha1]
     rw [h2] at h1
-    have h3 : (c.migs.filter (keepOf m.ranges m.mm)).filter (fun x => !x.isMigrating) = c.importing := by
+    have h3 : (c.migs.filter (keepOf m.ranges m.mm)).filter (fun x => !x.isMigrating) = (Cluster.importing c) := by
       simp only [Cluster.importing, List.filter_filter]
       apply List.filter_congr
       intro x _
@@ -130,8 +130,8 @@ theorem commitRes_inv {c : Cluster} (hinv : CommitInv c) {m : MigStore} (hm : m 
     have t3 : ((c.migs.filter (·.isMigrating)).map fun x => (x.ranges, x.mm)).Perm
         ((c.migs.filter (fun x => !x.isMigrating)).map fun x => (x.ranges, x.mm)) := hinv.twin.1
     simp only [List.map_cons] at t1 t2
-    have : ((m.ranges, m.mm) :: c'.pending.map fun x => (x.ranges, x.mm)).Perm
-        ((m.ranges, m.mm) :: c'.importing.map fun x => (x.ranges, x.mm)) := by
+    have : ((m.ranges, m.mm) :: (Cluster.pending c').map fun x => (x.ranges, x.mm)).Perm
+        ((m.ranges, m.mm) :: (Cluster.importing c').map fun x => (x.ranges, x.mm)) := by
       have t2' := t2
       rw [ha2, ha3] at t2'
       exact (t1.symm.trans t3).trans t2'
@@ -149,8 +149,8 @@ descriptor names) is gone -/
 theorem commit_step {s s1 : Store} {name : String} {c : Cluster} (hf : s.findCluster name = some c)
     (hinv : CommitInv c) {ranges : RangeList} {epoch : Nat} {clear : Bool}
     (h : commitMigration s name ranges epoch false clear = (s1, R.ok ())) :
-    ∃ c1 m, s1.findCluster name = some c1 ∧ CommitInv c1 ∧ m ∈ c.pending ∧ m.ranges = ranges ∧
-      m.mm.epoch = epoch ∧ c.pending.length = c1.pending.length + 1 := by
+    ∃ c1 m, s1.findCluster name = some c1 ∧ CommitInv c1 ∧ m ∈ (Cluster.pending c) ∧ m.ranges = ranges ∧
+      m.mm.epoch = epoch ∧ (Cluster.pending c).length = (Cluster.pending c1).length + 1 := by
   by_cases hex : ∃ m ∈ c.migs, m.isMigrating = true ∧ m.ranges = ranges ∧ m.mm.epoch = epoch
   · obtain ⟨m, hm, hmig, rfl, rfl⟩ := hex
     obtain ⟨A, dch, B, t, hdec, hlen, htm, htr, htmm, hpart, hcore⟩ := commitCore_pending (s := s) hf hinv hm hmig
@@ -161,7 +161,7 @@ theorem commit_step {s s1 : Store} {name : String} {c : Cluster} (hf : s.findClu
     have hn : c'.name = c.name := by subst hc'; rfl
     have hf' : ((s.setCluster c').bump).findCluster name = some c' := by
       rw [Store.findCluster_bump]; exact Store.findCluster_setCluster hf hn
-    have hmp : m ∈ c.pending := List.mem_filter.mpr ⟨hm, hmig⟩
+    have hmp : m ∈ (Cluster.pending c) := List.mem_filter.mpr ⟨hm, hmig⟩
     unfold commitMigration at h
     rw [hcore] at h
     simp only at h
@@ -181,7 +181,7 @@ theorem commit_step {s s1 : Store} {name : String} {c : Cluster} (hf : s.findClu
           have := hrel.found; rw [hf'] at this; exact (Option.some.inj this).symm
         subst hc2
         have hidle := (Cluster.isMigrating_eq_false_iff _).mp hrel.idle
-        have hp0 : cl2.pending = [] := (Cluster.pending_nil_iff hinv'.twin).mpr hidle
+        have hp0 : (Cluster.pending cl2) = [] := (Cluster.pending_nil_iff hinv'.twin).mpr hidle
         have hm0 := migs_filter_idle hidle (fun c => !c.isFree) (((s.setCluster cl2).bump).globalEpoch + 1)
         refine ⟨_, m, hrel.findCluster, commitInv_of_idle hm0, hmp, rfl, rfl, ?_⟩
         rw [hcount, hp0]
@@ -210,7 +210,7 @@ inductive CommitChain (name : String) : Store → Nat → Store → Prop where
 
 theorem commitChain_count {name : String} {s s' : Store} {k : Nat} (hch : CommitChain name s k s')
     {c : Cluster} (hf : s.findCluster name = some c) (hinv : CommitInv c) :
-    ∃ c', s'.findCluster name = some c' ∧ CommitInv c' ∧ c.pending.length = c'.pending.length + k := by
+    ∃ c', s'.findCluster name = some c' ∧ CommitInv c' ∧ (Cluster.pending c).length = (Cluster.pending c').length + k := by
   induction hch generalizing c with
   | nil s => exact ⟨c, hf, hinv, rfl⟩
   | cons ranges epoch clear h _ ih =>
@@ -218,4 +218,4 @@ theorem commitChain_count {name : String} {s s' : Store} {k : Nat} (hch : Commit
     obtain ⟨c', hf', hinv', hc⟩ := ih hf1 hinv1
     exact ⟨c', hf', hinv', by omega⟩
 
-end Um.Broker
+end Um.Broker.Scale
